@@ -512,6 +512,7 @@ package message
 //@   ghost label RCLOSE
 //@   ghost atomic
 //@   ghost set closeCompleted(r) = !timedout @close:r.closedCh
+//@   assert @close:r.closedCh: ncalls(WFH) == atlock(ncalls(WFH)) + 1 [the-close-is-announced-as-complete-only-after-the-wait-for-the-handlers-returned]
 //@   requires r != nil && routerBuilt(r) && r.logger != nil
 //@   nopanic
 //@   ensures r.closed && closed(r.closingInProgressCh) && closed(r.closedCh) [closed-and-both-close-channels-closed]
